@@ -139,9 +139,7 @@ def grids(tier):
 
 
 def simplifier(g):
-    def simp(w):
-        return [{"case": c} for c in g.simplify(w["case"])]
-    return simp
+    return g.wsimplify
 
 
 ALL = grid.Grid("all", urlgram.text_slots(1, None) + urlgram.structure_slots() + [DP], free=OPT_FREE)
@@ -163,7 +161,7 @@ def explore(chk, prop=PROP, evaluate=evaluate, fails_fn=fails_fn):
         failures, tags = grid.run(chk, g, d, evaluate)
         for t, n in tags.items():
             tags_total[t] = tags_total.get(t, 0) + n
-        all_f.extend((c, {"case": case}, e, gg) for (c, case, e, gg) in failures)
+        all_f.extend((c, ALL.wit(case), e, gg) for (c, case, e, gg) in failures)
     mine = chk.cov["states"] - n0
     chk.add("transitions", mine * 2)
     chk.add("evaluations", mine)
